@@ -1,6 +1,7 @@
 """Hypothesis strategies for script recipes (see gen/scriptasm.py for the token language)."""
 from hypothesis import strategies as st
 
+from gen.common import weighted
 from oracles import refvm as V
 
 # ------------------------------------------------------------------------------- operands
@@ -18,8 +19,7 @@ ENCS = ["min", "min", "min", "min", "direct", "p1", "p2", "p4"]
 
 
 def datas():
-    return st.one_of(st.sampled_from(INTERESTING_DATA), st.binary(max_size=6).map(bytes.hex),
-                     st.sampled_from(INTERESTING_DATA))
+    return weighted((2, st.sampled_from(INTERESTING_DATA)), (1, st.binary(max_size=6).map(bytes.hex)))
 
 
 def push_tok():
@@ -29,7 +29,7 @@ def push_tok():
     big = st.tuples(st.just("d"), st.builds(lambda size, byte: (bytes([byte]) * size).hex(),
                                             st.sampled_from(BLOB_SIZES), st.integers(0, 255)),
                     st.sampled_from(["min", "min", "p2", "p4"])).map(list)
-    return st.one_of(d, n, d, n, d, n, d, n, big)
+    return weighted((4, d), (4, n), (1, big))
 
 
 KEY_FORMS = ["c", "c", "c", "u", "u", "h", "hbad", "xgep", "off", "p05", "short", "empty"]
@@ -72,6 +72,10 @@ for _op in (V.OP_NOP, V.OP_DEPTH, V.OP_FROMALTSTACK, V.OP_CODESEPARATOR, V.OP_NO
             V.OP_ELSE, V.OP_ENDIF):
     ARITY[_op] = 0
 COMMON_OPS = sorted(ARITY)
+_ALWAYS_FAIL = set(V.DISABLED) | {V.OP_RESERVED, V.OP_VER, V.OP_VERIF, V.OP_VERNOTIF, V.OP_RETURN, V.OP_RESERVED1,
+                                  V.OP_RESERVED2, 0xba, 0xbb, 0xd0, 0xfa, 0xfd, 0xfe, 0xff, V.OP_ELSE, V.OP_ENDIF}
+GOOD_OPS = [o for o in COMMON_OPS if o not in _ALWAYS_FAIL and o not in (V.OP_VERIFY, V.OP_EQUALVERIFY, V.OP_NUMEQUALVERIFY)]
+RISKY_OPS = sorted(_ALWAYS_FAIL | {V.OP_VERIFY, V.OP_EQUALVERIFY, V.OP_NUMEQUALVERIFY})
 
 
 def op_stmt():
@@ -81,7 +85,8 @@ def op_stmt():
         if supply:
             return pushes[:a] + [["op", op]]
         return pushes[:max(0, a - 1)] + [["op", op]]
-    op = st.one_of(st.sampled_from(COMMON_OPS), st.sampled_from(COMMON_OPS), st.integers(0x4f, 0xff))
+    good = st.sampled_from(GOOD_OPS)
+    op = weighted((12, good), (1, st.sampled_from(RISKY_OPS)), (1, st.integers(0x4f, 0xff)))
     return st.builds(mk, op, st.lists(push_tok(), min_size=6, max_size=6), st.sampled_from([True, True, True, True, False]))
 
 
@@ -120,8 +125,8 @@ def multisig_stmt(cs=st.just(0), sig_variants=SIG_VARIANTS, key_forms=KEY_FORMS)
 
 
 def stmt_list(depth):
-    base = st.one_of(push_tok().map(lambda t: [t]), op_stmt(), op_stmt(), op_stmt(), pick_roll_stmt(),
-                     checksig_stmt(), multisig_stmt())
+    base = weighted((2, push_tok().map(lambda t: [t])), (10, op_stmt()), (1, pick_roll_stmt()),
+                    (1, checksig_stmt()), (1, multisig_stmt()))
     if depth <= 0:
         return st.lists(base, max_size=5).map(lambda ls: [t for l in ls for t in l])
 
@@ -137,7 +142,7 @@ def stmt_list(depth):
     inner = st.deferred(lambda: stmt_list(depth - 1))
     blk = st.builds(if_block, push_tok(), st.sampled_from([V.OP_IF, V.OP_NOTIF]), inner, st.booleans(), inner,
                     st.sampled_from([False, False, False, True]), st.sampled_from([True] * 9 + [False]))
-    return st.lists(st.one_of(base, base, base, blk), max_size=6).map(lambda ls: [t for l in ls for t in l])
+    return st.lists(weighted((4, base), (1, blk)), max_size=6).map(lambda ls: [t for l in ls for t in l])
 
 
 def limit_programs():
@@ -165,8 +170,9 @@ def limit_programs():
 
 def programs():
     tail = st.sampled_from([[], [["n", 1, "opn"]], [["n", 1, "opn"]], [["op", V.OP_DEPTH], ["op", V.OP_0NOTEQUAL]], [["n", 0, "opn"]]])
-    return st.one_of(st.builds(lambda a, t: a + t, stmt_list(2), tail), st.builds(lambda a, t: a + t, stmt_list(1), tail),
-                     limit_programs())
+    g2 = st.builds(lambda a, t: a + t, stmt_list(2), tail)
+    g1 = st.builds(lambda a, t: a + t, stmt_list(1), tail)
+    return weighted((5, g2), (4, g1), (1, limit_programs()))
 
 
 # ------------------------------------------------------------------------------- flags / context
@@ -269,7 +275,7 @@ def lock_templates():
     ks = st.integers(0, 5)
     forms = st.sampled_from(["c", "c", "c", "u", "u", "h", "hbad", "xgep", "off", "p05"])
     vars_ = st.sampled_from(SIG_VARIANTS)
-    ht = st.one_of(STD_HT, STD_HT, HASHTYPES)
+    ht = weighted((2, STD_HT), (1, HASHTYPES))
     return st.one_of(
         st.builds(p2pk, ks, forms, ht, vars_, st.booleans(), st.sampled_from([V.OP_CHECKSIG, V.OP_CHECKSIG, V.OP_CHECKSIGVERIFY])),
         st.builds(p2pkh, ks, forms, ht, vars_),
@@ -344,4 +350,4 @@ def spend_cases():
     ]
     raw = st.builds(mk_raw, st.sampled_from(raw_spks), st.sampled_from(["", "51", "0151", "00", "5151", "61", "5175", "0000"]),
                     st.sampled_from([[], [], ["01"], ["51"], ["", "51"]]), flagsets(), contexts())
-    return st.one_of(templ, templ, templ, grammar, grammar, wpkh, raw)
+    return weighted((5, templ), (3, grammar), (2, wpkh), (1, raw))
